@@ -1,5 +1,6 @@
 import Ecal.Model.Parser
 import Ecal.Gen.C08Print
+import Ecal.Gen.C08
 /-!
 Model of parser/prettyprinter.go at the CURRENT commit of /repo (with the repairs 58be508 — bracket rule
 `ppNeedsBrackets` —, 4f48871 — empty block comment —, e9f68ea — let / sink attributes are prefix operators — and 9f2e979 — `if true {…}` is not an else branch).  Text is a byte list.
@@ -169,6 +170,20 @@ def needsBrackets (parent child : Node) (childIndex : Nat) : Bool :=
       isProductChain child parent.binding then false
   else decide (parent.binding > child.binding) || (parent.binding = child.binding && childIndex > 0)
 
+/-- what the extracted rule reads of a node; `sub` = value of its sub-tree helper ppIsProductChain -/
+def bnOfNode (n : Node) (sub : Bool) : Ecal.Gen.C08.BN :=
+  ⟨n.name, n.binding, n.led != Led.none, n.children.length, fun _ => sub⟩
+
+/-- ppNeedsBrackets as EXTRACTED from the Go source of the tree under test (`Ecal.Gen.C08.needsBrackets`), with
+    the model's `isProductChain` for its sub-tree helper -/
+def needsBracketsGen (parent child : Node) (childIndex : Nat) : Bool :=
+  Ecal.Gen.C08.needsBrackets (bnOfNode parent true) (bnOfNode child (isProductChain child parent.binding)) childIndex
+
+/-- the bracket rule the printer model runs: the extracted rule when the extractor understood the source,
+    the hand port otherwise -/
+def bracketRule (parent child : Node) (childIndex : Nat) : Bool :=
+  if Ecal.Gen.C08.shapeOk then needsBracketsGen parent child childIndex else needsBrackets parent child childIndex
+
 def indentNames : List String := ["statements", "map", "list", "kindmatch", "statematch", "scopematch", "priority", "suppresses"]
 def noInitialIndentParents : List String :=
   ["return", "in", ":=", "preset", "kvp", "list", "funccall", "kindmatch", "statematch", "scopematch", "priority", "suppresses"]
@@ -223,7 +238,7 @@ partial def visit (ast? : Option Node) (parent : Option Node) : Except PErr Txt 
   let ps ← (ast.children.zipIdx).mapM fun (ch, i) => do
     let res ← visit ch (some ast)
     match ch with
-    | some chn => pure (if needsBrackets ast chn i then s "(" ++ res ++ s ")" else res)
+    | some chn => pure (if bracketRule ast chn i then s "(" ++ res ++ s ")" else res)
     | none => pure res
   let key := if n > 0 then ast.name ++ "_" ++ toString n else ast.name
   let kids : List Node := ast.children.filterMap id
